@@ -637,10 +637,11 @@ impl<'a> Parser<'a> {
     /// assert_eq!(parser.remainder(), "foo\n\t bar");
     ///
     /// ```
-    pub const fn trim(mut self) -> Self {
-        parsing! {self, FromBoth;
-            self.str = crate::string::trim(self.str);
-        }
+    pub const fn trim(self) -> Self {
+        let mut this = self.trim_start();
+        this.parse_direction = ParseDirection::FromBoth;
+        this.str = crate::string::trim_end(this.str);
+        this
     }
 
     /// Removes whitespace from the start of the parsed string.
@@ -714,13 +715,14 @@ impl<'a> Parser<'a> {
     /// assert_eq!(parser.remainder(), "world");
     /// ```
     ///
-    pub const fn trim_matches<'p, P>(mut self, needle: P) -> Self
+    pub const fn trim_matches<'p, P>(self, needle: P) -> Self
     where
         P: Pattern<'p>,
     {
-        parsing! {self, FromBoth;
-            self.str = crate::string::trim_matches(self.str, needle);
-        }
+        let mut this = self.trim_start_matches(needle);
+        this.parse_direction = ParseDirection::FromBoth;
+        this.str = crate::string::trim_end_matches(this.str, needle);
+        this
     }
 
     /// Repeatedly removes all instances of `needle` from the start of the parsed string.
